@@ -38,6 +38,9 @@ type pipeline struct {
 	mu        sync.Mutex
 	forwarded int // updates handed to the explorer so far
 	onForward func(n int, ts map[string][]*discovery.SDTargets, at time.Time)
+	// beforeExplorerReload, if set, is called between the scrape manager's and the explorer's reload callbacks (a
+	// harness callback in the ConfigManager's list; it does nothing but signal)
+	beforeExplorerReload func()
 }
 
 func newPipeline(workers int) *pipeline {
@@ -48,7 +51,15 @@ func newPipeline(workers int) *pipeline {
 	p.disc = discovery.New(sc.Quiet)
 	p.exp = explore.New(p.sm, prometheus.NewRegistry(), sc.Quiet)
 	// same order as cmd/kvass/coordinator.go
-	p.cm.AddReloadCallbacks(p.sm.ApplyConfig, p.exp.ApplyConfig, p.disc.ApplyConfig)
+	p.cm.AddReloadCallbacks(p.sm.ApplyConfig, func(*prom.ConfigInfo) error {
+		p.mu.Lock()
+		f := p.beforeExplorerReload
+		p.mu.Unlock()
+		if f != nil {
+			f()
+		}
+		return nil
+	}, p.exp.ApplyConfig, p.disc.ApplyConfig)
 	// the API service as cmd/kvass/coordinator.go constructs it; the per-target health it shows comes from the
 	// coordinator, here: alternating by hash so that health filters have something to filter
 	p.svc = coordinator.NewService("", p.cm,
